@@ -67,8 +67,22 @@ ROUND12 = {
     "C15": "The same fault isolation on connections the application made itself with NewConn (ServeMux or state machine as handler).",
     "C18": "IPv6-typed net.IP fields also hold IPv4 addresses in their 4-byte form.",
     "C19": "Every third message may be an answer, the association may sit behind an application's wrapper type, and replies may be written while the next message is handled.",
-    "C20": "Query values (paths and names) built once and used for messages of two applications that give the names different codes, sequentially and from several goroutines at once.",
+    "C20": "Query values (paths and names) built once and used for messages of two applications that give the names different codes, sequentially and from several goroutines at once; lists returned by earlier searches are re-checked after later ones.",
 }
+# ... and after the thirteenth
+ROUND13 = {
+    "C05": "ReadMessage called directly on a multi-stream association is one more consumer (random and exhaustive split points).",
+    "C06": "Kept messages are forwarded with retry budgets through writers that first refuse, and searched with an empty path and a concrete vendor.",
+    "C07": "Message objects written again after other messages; every transport write of a message, retried ones included, must go to the named stream.",
+    "C09": "A mux whose ErrorReports channel nobody reads must still call registered handlers after several unhandled messages.",
+    "C12": "Application AVPs may be handed to the client as struct literals.",
+    "C13": "A responsive TLS peer behind a 300 ms dial timeout must not be dropped; 3 / 12 / 24 peers of one state machine all get their DWRs answered, whether or not the application reads HandshakeNotify / ErrorReports.",
+    "C14": "The peer's shutdown may arrive inside a header or a body.",
+    "C15": "With nobody reading ErrorReports, faults on some connections must not stall a healthy one.",
+    "C17": "The files of a set are also loaded through one NewParser(files...) call, and two parsers loaded side by side are asked in turn.",
+}
+for _k, _v in ROUND13.items():
+    ROUND12[_k] = (ROUND12.get(_k, "") + " " + _v).strip()
 
 CLAIMED = {k: (v[0], v[1] + (" " + ROUND12[k] if k in ROUND12 else "") + " Exploration, not proof: the evidence reports how many cases, how many distinct non-trivial ones, and the class histogram.", T_NOTE, "DESIGN.md section 4, " + k) for k, v in CLAIMED.items()}
 
